@@ -45,10 +45,18 @@ def seeded_text():
     return buf.getvalue().rstrip("\n")
 
 
+def benign_text():
+    import benign
+    buf = io.StringIO()
+    with contextlib.redirect_stdout(buf):
+        benign.table()
+    return buf.getvalue().rstrip("\n")
+
+
 def main():
     p = os.path.join(ROOT, "DESIGN.md")
     s = open(p).read()
-    for tag, txt in (("SEEDED", seeded_text()), ("PLANS", plans_text())):
+    for tag, txt in (("SEEDED", seeded_text()), ("BENIGN", benign_text()), ("PLANS", plans_text())):
         pat = re.compile(r"(<!-- BEGIN:%s -->\n).*?(\n<!-- END:%s -->)" % (tag, tag), re.S)
         if not pat.search(s):
             print("marker %s not found" % tag)
